@@ -234,7 +234,10 @@ impl GenerationPass for AvailableValuePass {
                         node.gen_memory_value()
                     {
                         if let Some(curr_stack) = node.reg_values_in().stack_offset() {
-                            map.insert(MemoryLocation::StackOffset(curr_stack + offset), value);
+                            map.insert(
+                                MemoryLocation::StackOffset(curr_stack.wrapping_add(offset)),
+                                value,
+                            );
                         }
                     } else if let Some((memory, value)) = node.gen_memory_value() {
                         map.insert(memory, value);
@@ -339,7 +342,10 @@ fn rule_expand_address_for_load(
             {
                 available_out.insert(
                     store_reg.get_cloned(),
-                    AvailableValue::MemoryAtOriginalRegister(*reg, *off + load.imm.get().value()),
+                    AvailableValue::MemoryAtOriginalRegister(
+                        *reg,
+                        off.wrapping_add(load.imm.get().value()),
+                    ),
                 );
             } else if let Some(AvailableValue::Address(label)) = available_in.get(load.rs1.get()) {
                 available_out.insert(
@@ -450,12 +456,12 @@ fn rule_known_values_to_stack(
             if let Some(item) = available_in.get(&reg) {
                 match item {
                     AvailableValue::Constant(x) => {
-                        memory_out.insert(pos, AvailableValue::Constant(*x + off));
+                        memory_out.insert(pos, AvailableValue::Constant(x.wrapping_add(off)));
                     }
                     AvailableValue::OriginalRegisterWithScalar(reg2, off3) => {
                         memory_out.insert(
                             pos,
-                            AvailableValue::OriginalRegisterWithScalar(*reg2, *off3 + off),
+                            AvailableValue::OriginalRegisterWithScalar(*reg2, off3.wrapping_add(off)),
                         );
                     }
                     _ => {}
